@@ -39,3 +39,17 @@ macro_rules! lzma_debug {
 macro_rules! lzma_info {
     ($($arg:tt)+) => {};
 }
+
+/// Record a verification event (cfg: enabled).
+#[cfg(lzma_rs_verif)]
+macro_rules! verif_ev {
+    ($name:expr $(, $arg:expr)* $(,)?) => {
+        crate::verif::emit($name, &[$(($arg) as u64),*]);
+    }
+}
+
+/// Record a verification event (cfg: disabled).
+#[cfg(not(lzma_rs_verif))]
+macro_rules! verif_ev {
+    ($($arg:tt)*) => {};
+}
